@@ -8,6 +8,8 @@
                          after passing that test no path returns Ok(None) ("not a match")
   C07.e label boundary   in replace_raw every path that returns a rewritten name has established that the comparison start
                          name.len() - source_name.len() coincides with a label boundary of the name (typestate over the label walk)
+  C07.f comparison window (E4) the bytes compared for a label are exactly the label_len bytes behind its length byte, against the source
+                         bytes at the same distance from the end of the source (per-byte closure form analysed for a generic index, or slices)
   (argument validation on a fresh vector and commit-after-reparse are decided under C10.a)
 
 Not decided: which names match (label-aligned, case-insensitive comparison of run-time bytes), identity-rename equality.
@@ -15,6 +17,7 @@ Not decided: which names match (label-aligned, case-insensitive comparison of ru
 from analysis import facts as F
 from analysis.cfg import PathFlow, Automaton
 from rules import reemit, layout
+from analysis.lin import le, ge
 
 RS = 'renamer::Renamer::rename_response_section'
 TOP = 'renamer::Renamer::rename_with_raw_names'
@@ -170,6 +173,98 @@ def boundary_rule(ctx, facts, cfg):
                       site=f['at'], path=flow.describe_path(RR, w), config=cfg)
 
 
+def window_rule(ctx, facts, cfg):
+    """C07.f (E4): in replace_raw, the bytes compared for a label are exactly the label_len bytes behind its length byte, each against the
+    source byte at the same distance from the end of the source.  Works for the per-byte form ((0..n).all(|j| ..), analysed for a generic
+    j) and for a slice comparison."""
+    rid = 'C07.f'
+    from analysis.e4 import E4
+    from analysis.interp import Ref, Slice, Int
+    from analysis.lin import eq as _eq, lin as _lin
+    f = facts.fn(RR)
+    if f is None:
+        ctx.missing(rid, RR)
+        return
+    e4 = E4(facts, probes=[('eq_ignore_ascii_case', None)], track_loads=True)
+    try:
+        S = e4.summarize(RR)
+    except Exception as e:  # noqa
+        ctx.violation(rid, RR, 'undecided', 'cannot analyse replace_raw: %s' % e, kind='undecided', config=cfg)
+        return
+    for what, n_ in sorted(e4.unmodelled().items()):
+        ctx.violation(rid, RR, 'unmodelled:' + str(what)[:60], 'unmodelled construct in replace_raw: %s' % str(what)[:120], kind='undecided', config=cfg)
+    name_base, src_base = 'A0:' + RR, 'A2:' + RR
+    ln_name = S.init.get(name_base + '#len')
+    ln_src = S.init.get(src_base + '#len')
+    n = 0
+    for p in e4.probes():
+        if p.get('kind') != 'call' or len(p['args']) < 2:
+            continue
+        C = p['C']
+        sides = []
+        for a in p['args'][:2]:
+            if isinstance(a, Ref) and a.loc in e4.an.cell_index:
+                b, pos = e4.an.cell_index[a.loc]
+                sides.append((b, pos, _lin(1)))
+            elif isinstance(a, Slice):
+                sides.append((a.base, a.off, a.ln))
+        if len(sides) != 2 or {sides[0][0], sides[1][0]} != {name_base, src_base}:
+            continue
+        n += 1
+        nm = sides[0] if sides[0][0] == name_base else sides[1]
+        sr = sides[1] if sides[0][0] == name_base else sides[0]
+        # the length byte of the label being compared: a user variable of replace_raw still holding a byte that was loaded from `name`
+        # (the engine keeps, as a ghost, the position every loaded byte came from)
+        user = {l for l, nm_ in f['debug']}
+        lab = p0 = None
+        cands = []
+        for k, g in p['mem'].items():
+            if not k.startswith('ghost:ld:') or not isinstance(g, Int):
+                continue
+            loc = k[len('ghost:ld:'):]
+            if e4.an.load_base.get(loc) != name_base or not isinstance(p['mem'].get(loc), Int):
+                continue
+            try:
+                li = int(loc.rsplit('._', 1)[1])
+            except ValueError:
+                continue
+            if li in user:
+                cands.append((loc, p['mem'][loc], g.e))
+        if len(cands) == 1:
+            lab, p0 = cands[0][1], cands[0][2]
+        if lab is None or p0 is None:
+            ctx.violation(rid, RR, 'length-byte', 'cannot relate the comparison at %s to the length byte of the label being compared' % p['at'], kind='undecided', site=p['at'], config=cfg)
+            continue
+        problems = []
+        d = nm[1] - p0
+        lo, hi = C.bounds(d)
+        width_one = nm[2].is_const() and nm[2].c == 1
+        if lo != 1:
+            problems.append('the first byte compared lies %s byte(s) behind the length byte (must be 1: the byte right after it)' % lo)
+        if width_one:
+            if not C.entails(le(d, lab.e)):
+                problems.append('bytes further than label_len behind the length byte can be compared')
+            t_ = C.copy()
+            t_.add(_eq(d, lab.e))
+            if t_.infeasible():
+                problems.append('the last byte of the label (length byte + label_len) is never compared')
+        else:
+            if C.bounds(nm[2] - lab.e) != (0, 0):
+                problems.append('the compared slice is %s byte(s) long relative to label_len (must be exactly label_len)' % (C.bounds(nm[2] - lab.e),))
+        # same distance from the end on the source side: src_pos = name_pos - (name.len() - source.len())
+        if ln_name is not None and ln_src is not None and isinstance(ln_name[0], Int) and isinstance(ln_src[0], Int):
+            if C.bounds(sr[1] - (nm[1] - (ln_name[0].e - ln_src[0].e))) != (0, 0):
+                problems.append('the source byte compared is not the one at the same distance from the end of the source')
+            if not width_one and C.bounds(sr[2] - nm[2]) != (0, 0):
+                problems.append('the two compared slices differ in length')
+        ctx.instance(rid, 'replace_raw: comparison at %s covers exactly the label_len bytes behind the length byte, aligned with the source' % p['at'], ok=not problems, site=p['at'])
+        for w in problems:
+            ctx.violation(rid, RR, 'window:' + w.split(' ')[1] + '-' + w.split(' ')[2], 'replace_raw: in the label comparison at %s %s: names that differ from the source in a byte that is not compared are rewritten too'
+                          % (p['at'], w), site=p['at'], config=cfg)
+    if n < 1:
+        ctx.violation(rid, '<floor>', 'comparisons', 'no case-insensitive comparison between the name and the source found in replace_raw', kind='below-floor')
+
+
 def default_arm_rule(ctx, facts, cfg):
     """the default arm copies exactly rdlen bytes starting behind the 10-byte header"""
     rid = 'C07.b'
@@ -206,4 +301,5 @@ def run(ctx):
         reemit.open_ended_rule(ctx, facts, cfg, 'C07.c', TOP, ('renamer::',), 4, 'the renamer')
         decision_rule(ctx, facts, cfg)
         boundary_rule(ctx, facts, cfg)
+        window_rule(ctx, facts, cfg)
     ctx.trust('analysis/interp.py contracts; helpers above the size threshold are havocked for the accounting (only facts local to rename_response_section are used)')
